@@ -1,5 +1,10 @@
 use std::fs::File;
+#[cfg(not(kani))]
 use std::io::{BufRead, BufReader, Seek, SeekFrom};
+#[cfg(kani)]
+use std::io::{BufRead, Seek, SeekFrom};
+#[cfg(kani)]
+use crate::verif_kani::shim::io::BufReader;
 use std::iter::FromIterator;
 use std::str::FromStr;
 use std::sync::Arc;
